@@ -2,7 +2,7 @@ import StraxModel.Lemmas.Storage
 import StraxModel.Lemmas.ChunkAlgRechunk
 /-
   Bridge between the C07 stream theory (`Strax.LawAbiding`, `Chunk.good`, the Prop form of the
-  boundary rule in `Strax.C07.rechunk_stream`) and the C03 predicates of Model/Storage.lean.
+  boundary rule in `Strax.C07.rechunk_stream_partial`) and the C03 predicates of Model/Storage.lean.
 -/
 namespace Strax.Storage
 open Strax
